@@ -212,10 +212,12 @@ WEIGHT_CLASSES_NUMPY = ("zero", "one", "pos")
 
 def norm_slot(slot, collective):
     """values[3] -> values[*] for slots addressed through opaque index arithmetic / data-dependent keys."""
-    s = slot[4:] if slot.startswith("new:") else slot
+    s = slot[4:].split("#")[0] if slot.startswith("new:") else slot
     if "[" in s:
         base = s.split("[")[0]
         if base in collective:
+            if s.endswith("[key:other]"):
+                return f"{base}[another row's key]"
             return f"{base}[*]"
     return s
 
@@ -225,8 +227,10 @@ def weight_kind(w):
     if isinstance(w, W):
         if w.cls == "zero":
             return "zero"
-        if w.tag in ("weight", "count"):
+        if w.tag == "weight":
             return "weight"
+        if w.tag == "count":
+            return "count"     # the row is counted once: equals the caller's weight only if that weight is 1
         return w.tag
     if isinstance(w, Scaled):
         if w.w.cls == "zero":
@@ -250,7 +254,7 @@ def collective_slots(cfg):
 
 
 class PathResult:
-    def __init__(self, effects, choices, outcome, machine, cfg):
+    def __init__(self, effects, choices, outcome, machine, cfg, wcls=None):
         self.effects = effects
         self.outcome = outcome
         self.machine = machine
@@ -271,6 +275,8 @@ class PathResult:
                 _, slot, w, meth, sel = e
                 slot = fresh_home.get(slot, slot)
                 wk = weight_kind(w)
+                if wk == "count":
+                    wk = "weight" if wcls == "one" else "1 (a count) instead of the weight"
                 ns = norm_slot(slot, col)
                 self.all_fill_slots.add(ns)
                 if sel is False:
@@ -297,7 +303,7 @@ def run_fill(repo, cfg, label, q, wcls):
     def entry(m):
         m.call_function(f, [Opaque("datum"), W(wcls, tag="weight")], selfval=m.selfobj)
 
-    return [PathResult(e, c, o, m, cfg) for (e, c, o, m) in explore(make, entry)]
+    return [PathResult(e, c, o, m, cfg, wcls) for (e, c, o, m) in explore(make, entry)]
 
 
 def run_numpy(repo, cfg, label, q, wcls, wform, children_count, shape_known=False):
@@ -319,4 +325,4 @@ def run_numpy(repo, cfg, label, q, wcls, wform, children_count, shape_known=Fals
             weights = W(wcls, tag="weight")
         m.call_function(f, [Opaque("data"), weights, [Opaque("n") if shape_known else None]], selfval=m.selfobj)
 
-    return [PathResult(e, c, o, m, cfg) for (e, c, o, m) in explore(make, entry)]
+    return [PathResult(e, c, o, m, cfg, wcls) for (e, c, o, m) in explore(make, entry)]
